@@ -77,6 +77,13 @@ pub fn gen_cfg(t: &mut Tape) -> SCfg {
     }
 }
 
+/// `gen_cfg` plus an optional earlier search on the same searcher.
+pub fn gen_cfg_warm(t: &mut Tape) -> SCfg {
+    let mut c = gen_cfg(t);
+    c.warm = gen::gen_warm(t, c.term);
+    c
+}
+
 fn no_newline_opts() -> ReOpts {
     ReOpts {
         max_nodes: 8,
@@ -92,7 +99,7 @@ fn no_newline_opts() -> ReOpts {
 }
 
 pub fn gen_case(t: &mut Tape) -> Case {
-    let cfg = gen_cfg(t);
+    let cfg = gen_cfg_warm(t);
     let term = cfg.term;
     let (mat, hirs) = if t.chance(1, 3) {
         (Mat::X(*t.pick(&XKINDS)), vec![])
@@ -367,6 +374,7 @@ pub fn check(case: &Case) -> Verdict {
     let mut info = Info::new(max_data_reads >= 3 && has_match && (case.cfg.passthru || case.cfg.before + case.cfg.after > 0));
     info.class_if(max_data_reads >= 3, "reader_refilled>=2");
     info.class_if(case.also_multi_line, "multi_line_requested");
+    info.class_if(case.cfg.warm.is_some(), "searcher_reused_after_another_input");
     info.class_if(matches!(&case.mat, Mat::Re { pat } if pat.multiline), "matcher_built_without_terminator");
     info.class_if(case.heap_limit_probe, "heap_limit_probe");
     info.class_if(input.len() > 65536, "input>64KiB");
